@@ -88,8 +88,11 @@ def defuse_xml(fp: IOType, rewind: bool = True) -> IOType:
         for event, node in pulldom.parse(fp, parser):
             if event == pulldom.START_ELEMENT:
                 break
-    except SAXParseException:
-        pass  # the purpose is to defuse not to check xml source syntax
+    except SAXParseException as err:
+        # The purpose is to defuse not to check xml source syntax, but a prolog
+        # that the parser can't read (e.g. UTF-32 data without a BOM) has not been
+        # checked at all and another parser could be able to read it.
+        raise XMLResourceParseError("invalid XML syntax: {}".format(err)) from err
     except OSError as err:
         raise XMLResourceOSError(err)
     except (LookupError, ValueError) as err:
